@@ -423,6 +423,9 @@ class Market(Sector):
         if supply_eqn is None or supply_eqn=='':
             self.ResidualSupply = supplier
             return
+        # A supplier is listed once: stating its supply again revises the rule. (Listed twice, it would be taken
+        # out of the residual twice, and be paid twice.)
+        self.OtherSuppliers = [(sector, eqn) for sector, eqn in self.OtherSuppliers if sector is not supplier]
         self.OtherSuppliers.append((supplier, supply_eqn))
 
     def _GenerateMultiSupply(self):
